@@ -855,10 +855,11 @@ def rule_renderings(ctx, rep):
     where = ctx.path(OUT)
     g = _paths_fixture(ctx)
     B = g.blocks
-    paths = [[B["P"], B["Q"], B["J"]], [B["P"], B["R"], B["J"]], [B["P"]]]
+    # the last path passes through one block twice (the body of a subroutine that is called twice): it is listed at every position
+    paths = [[B["P"], B["Q"], B["J"]], [B["P"], B["R"], B["J"]], [B["P"]], [B["P"], B["R"], B["Q"], B["R"], B["J"]]]
     det = Obj(path_detectors(ctx)["rekey-to"]["cls"])
     ep = w.new(EP, g.teal, det, [list(p) for p in paths])
-    want_short = ["0 -> 5 -> 3", "0 -> 12 -> 3", "0"]
+    want_short = ["0 -> 5 -> 3", "0 -> 12 -> 3", "0", "0 -> 12 -> 5 -> 12 -> 3"]
     for p, ws in zip(paths, want_short):
         got = _call(ctx, ep, "_short_notation", p)
         rep.check(got == ws, rule, f"short notation of {ws}", where, got, ws)
@@ -869,15 +870,16 @@ def rule_renderings(ctx, rep):
     it = Interp(EP.mod)
     want_blocks = [[[f"{w.getattr(i, 'line')}: {it.to_str(i)}" for i in w.getattr(b, "instructions")] for b in p] for p in paths]
     got_paths = js.get("paths")
-    rep.check(js.get("count") == 3 and isinstance(got_paths, list) and len(got_paths) == 3, rule, "json count = number of paths", where,
-              {"count": js.get("count"), "paths": len(got_paths) if isinstance(got_paths, list) else got_paths}, {"count": 3, "paths": 3})
+    rep.check(js.get("count") == 4 and isinstance(got_paths, list) and len(got_paths) == 4, rule, "json count = number of paths", where,
+              {"count": js.get("count"), "paths": len(got_paths) if isinstance(got_paths, list) else got_paths}, {"count": 4, "paths": 4})
     if isinstance(got_paths, list):
         for k, (gp, ws, wb) in enumerate(zip(got_paths, want_short, want_blocks)):
             rep.check(isinstance(gp, dict) and gp.get("short") == ws, rule, f"json short of path {k}", where, gp.get("short") if isinstance(gp, dict) else gp, ws)
             rep.check(isinstance(gp, dict) and gp.get("blocks") == wb, rule, f"json blocks of path {k}", where, gp.get("blocks") if isinstance(gp, dict) else gp, wb)
     rep.check(js.get("check") == "rekey-to" and js.get("type") == "ExecutionPaths", rule, "json names the detector", where, {"check": js.get("check"), "type": js.get("type")}, "rekey-to")
     # filtering
-    for pattern, keep in (("", [0, 1, 2]), ("5", [1, 2]), ("0 -> 12", [0, 2]), ("^0$", [0, 1]), ("3$", [2]), ("99", [0, 1, 2]), ("1", [0, 2])):
+    for pattern, keep in (("", [0, 1, 2, 3]), ("5", [1, 2]), ("0 -> 12", [0, 2]), ("^0$", [0, 1, 3]), ("3$", [2]), ("99", [0, 1, 2, 3]), ("1", [0, 2]),
+                          ("12 -> 5", [0, 1, 2])):
         ep2 = w.new(EP, g.teal, det, [list(p) for p in paths])
         r = _call(ctx, ep2, "filter_paths", pattern)
         got = w.getattr(ep2, "paths")
